@@ -7,6 +7,20 @@ Theorem uint32_roundtrip : forall n r, read32 (le32 n ++ r) = Some (n mod 429496
 Proof. exact read32_le32. Qed.
 Print Assumptions uint32_roundtrip.
 
+(* encodePacket / decodePacket: every well-formed packet (ids below 2^31, ints
+   in [0,2^32), lengths below 2^32, map keys distinct = strictly sorted in the
+   canonical representation) decodes to itself; nesting is unbounded *)
+Theorem packet_roundtrip : forall p, wf_packet p = true -> decodePacket (encodeBody p) = DOk p.
+Proof. exact packet_roundtrip_all. Qed.
+Print Assumptions packet_roundtrip.
+
+(* runService's framing: the length prefix written by encodePacket delimits
+   exactly the body, whatever follows in the stream *)
+Theorem packet_framing : forall p rest, zlen (encodeBody p) < 4294967296 ->
+  readLP (encodePacket p ++ rest) = Some (encodeBody p, rest).
+Proof. exact packet_framing_all. Qed.
+Print Assumptions packet_framing.
+
 (* In every reachable state of the context LTS (any number of threads, any
    interleaving of Rebuild/Cancel/Dispose/Watch calls, edits and watcher
    ticks) at most one thread is inside rebuildImpl, and for one build only. *)
